@@ -23,6 +23,14 @@ Objects are modelled by what the property observes of them (labels, component va
 components, selections and their styles, key joins, links, uuid, metaKV); a record is a structure
 with one optional field per record key, so that "the loader of version v reads a key the saver of
 version v does not write" is a `none` (Python: KeyError).
+
+Round 2: (a) every `Data` record of a collection record carries its *own* `_protocol` (documents
+mixing protocols), savers take one version per dataset, and the unserializer is modelled as the
+state machine it is (`Ctx` = `GlueUnSerializer._objs`, requests in any order, `Unser.run`);
+(b) links are the full zoo: `ComponentLink`s with any number of inputs from any datasets, with or
+without inverse, the helpers `LinkSame`, `LinkTwoWay`, multi-link helpers, `LinkAligned`, derived
+components through arithmetic and through user functions, coordinate links.  The protocol ≤ 3
+loader *classifies* the saved links (crossing datasets or not) exactly as the code does.
 -/
 namespace GlueVerif.C12.Records
 
@@ -50,15 +58,47 @@ structure Comp where
   vals : List Int
   deriving Repr, DecidableEq
 
-/-- an arithmetic derived component -/
+/-- a link function, by name (`identity`, the importable user functions of
+`harness/props/c12_linkfns.py`, `PartialResult`s `f_1`, `f_2`, `binop_mul` / `binop_add` for the
+arithmetic `BinaryComponentLink`s, `coord` for coordinate links) -/
+abbrev Fn := String
+
+/-- a derived component of a dataset -/
 inductive Der where
   | dbl (label src : String)          -- data.id[src] * 2
   | sum (label a b : String)          -- data.id[a] + data.id[b]
+  | fn1 (label : String) (f : Fn) (src : String)    -- add_component_link(ComponentLink([src], cid, using=f))
+  | fn2 (label : String) (f : Fn) (a b : String)    -- add_component_link(ComponentLink([a, b], cid, using=f))
   deriving Repr, DecidableEq
 
 def Der.label : Der → String
   | .dbl l _ => l
   | .sum l _ _ => l
+  | .fn1 l _ _ => l
+  | .fn2 l _ _ _ => l
+
+/-- a component of a dataset of the collection: dataset index, label (`Pixel_Axis_0_[x]` and
+`World_0` name the coordinate components) -/
+structure CRef where
+  ds : Nat
+  label : String
+  deriving Repr, DecidableEq
+
+/-- `ComponentLink(frm, to, using, inverse)` -/
+structure CLink where
+  frm : List CRef
+  to : CRef
+  fn : Fn
+  inv : Option Fn
+  deriving Repr, DecidableEq
+
+/-- the link inside the derived component `der` of dataset `i` (all its inputs are components of
+the same dataset: `add_component_link` refuses anything else) -/
+def Der.link (i : Nat) : Der → CLink
+  | .dbl l s => ⟨[⟨i, s⟩], ⟨i, l⟩, "binop_mul", none⟩
+  | .sum l a b => ⟨[⟨i, a⟩, ⟨i, b⟩], ⟨i, l⟩, "binop_add", none⟩
+  | .fn1 l f s => ⟨[⟨i, s⟩], ⟨i, l⟩, f, none⟩
+  | .fn2 l f a b => ⟨[⟨i, a⟩, ⟨i, b⟩], ⟨i, l⟩, f, none⟩
 
 /-- subset states over components of one dataset -/
 inductive St where
@@ -98,17 +138,36 @@ structure DataO where
   coords : Bool
   deriving Repr, DecidableEq
 
-/-- `LinkSame(data[i].id[a], data[j].id[b])` -/
-structure Link where
-  i : Nat
-  a : String
-  j : Nat
-  b : String
+def pixLabel : String := "Pixel_Axis_0_[x]"
+def worldLabel : String := "World_0"
+
+/-- an entry of `dc.external_links`: a plain `ComponentLink` or a link helper -/
+inductive Ext where
+  | plain (l : CLink)
+  | same (a b : CRef)                        -- LinkSame(a, b)
+  | twoWay (a b : CRef) (f g : Fn)           -- LinkTwoWay(a, b, f, g)
+  | pair (a1 a2 b1 b2 : CRef)                -- PairLink(cids1=[a1, a2], cids2=[b1, b2]) (BaseMultiLink sub-class)
+  | multi (a1 a2 b1 b2 : CRef)               -- MultiLink([a1, a2], [b1, b2], forwards=pair_fw, backwards=pair_bw)
+  | aligned (i j : Nat)                      -- LinkAligned(data[i], data[j]) (one-dimensional datasets)
   deriving Repr, DecidableEq
+
+/-- the `ComponentLink`s a helper consists of (`for sublink in link`), in order -/
+def Ext.flatten : Ext → List CLink
+  | .plain l => [l]
+  | .same a b => [⟨[a], b, "identity", some "identity"⟩]
+  | .twoWay a b f g => [⟨[a], b, f, none⟩, ⟨[b], a, g, none⟩]
+  | .pair a1 a2 b1 b2 =>
+    [⟨[a1, a2], b1, "forwards_1", none⟩, ⟨[a1, a2], b2, "forwards_2", none⟩,
+     ⟨[b1, b2], a1, "backwards_1", none⟩, ⟨[b1, b2], a2, "backwards_2", none⟩]
+  | .multi a1 a2 b1 b2 =>
+    [⟨[a1, a2], b1, "pair_fw_1", none⟩, ⟨[a1, a2], b2, "pair_fw_2", none⟩,
+     ⟨[b1, b2], a1, "pair_bw_1", none⟩, ⟨[b1, b2], a2, "pair_bw_2", none⟩]
+  | .aligned i j => [⟨[⟨i, pixLabel⟩], ⟨j, pixLabel⟩, "identity", some "identity"⟩]
 
 structure DCO where
   data : List DataO
-  links : List Link
+  /-- `dc.external_links`, in order -/
+  links : List Ext
   /-- `dc.subset_groups` (label, style), in order -/
   groups : List (String × Style)
   sgCount : Nat
@@ -137,11 +196,13 @@ structure DataRec where
   metaKV : Option (List (String × String))
   deriving Repr, DecidableEq
 
-/-- a serialized link: the `ComponentLink`s of a dataset's derived components (internal) and
-the `LinkSame`s of the collection -/
+/-- a serialized link: a `CoordinateComponentLink` of a dataset with coordinates, a
+`ComponentLink` (of a derived component, or between datasets), or a link helper (written through
+its `__gluestate__`; only the protocol-4 saver writes `dc.external_links` unexpanded) -/
 inductive LinkRec where
-  | derived (ds : Nat) (label : String)
-  | same (l : Link)
+  | coord (ds : Nat) (pix2world : Bool)
+  | link (l : CLink)
+  | helper (e : Ext)
   deriving Repr, DecidableEq
 
 structure DCRec where
@@ -242,52 +303,78 @@ def loadData (r : DataRec) : Option DataO :=
 
 /-! ## DataCollection savers -/
 
-/-- the links of the derived components of datasets `i, i+1, …` -/
-def derivedLinksFrom : Nat → List DataO → List LinkRec
+/-- `data.links` of dataset `i`: its coordinate links, then the links of its derived components -/
+def dataLinks (i : Nat) (d : DataO) : List LinkRec :=
+  (if d.coords then [LinkRec.coord i true, LinkRec.coord i false] else []) ++
+  d.derived.map (fun der => LinkRec.link (der.link i))
+
+/-- the links of datasets `i, i+1, …` -/
+def dataLinksFrom : Nat → List DataO → List LinkRec
   | _, [] => []
-  | i, d :: r => d.derived.map (fun der => LinkRec.derived i der.label) ++ derivedLinksFrom (i + 1) r
+  | i, d :: r => dataLinks i d ++ dataLinksFrom (i + 1) r
 
-/-- `dc.links`: the links of every dataset's derived components, then the external links -/
+/-- `dc.links`: the links of every dataset, then the external links with every helper expanded
+into its `ComponentLink`s (a `set` in the code; the order is not observed) -/
 def allLinks (dc : DCO) : List LinkRec :=
-  derivedLinksFrom 0 dc.data ++ dc.links.map LinkRec.same
+  dataLinksFrom 0 dc.data ++ (dc.links.flatMap Ext.flatten).map LinkRec.link
 
-def saveDC1 (dv : Nat) (dc : DCO) : Option DCRec := do
-  let ds ← dc.data.mapM (saveData dv)
+/-- `dc.external_links` as written by protocol 4: helpers through their `__gluestate__` -/
+def extRec : Ext → LinkRec
+  | .plain l => .link l
+  | e => .helper e
+
+/-- `list(map(context.id, dc))`: every dataset with the `Data` saver chosen for it
+(`dvs[i]` = the protocol dataset `i` is written with; one version per dataset) -/
+def saveDatas (dvs : List Nat) (ds : List DataO) : Option (List DataRec) :=
+  if dvs.length = ds.length then (ds.zip dvs).mapM (fun p => saveData p.2 p.1) else none
+
+def saveDC1 (dvs : List Nat) (dc : DCO) : Option DCRec := do
+  let ds ← saveDatas dvs dc.data
   some { protocol := 1, data := ds, links := allLinks dc, groups := none, sgCount := none }
 
-def saveDC2 (dv : Nat) (dc : DCO) : Option DCRec := do
-  let r ← saveDC1 dv dc
+def saveDC2 (dvs : List Nat) (dc : DCO) : Option DCRec := do
+  let r ← saveDC1 dvs dc
   some { r with protocol := 2, groups := some dc.groups }
 
-def saveDC3 (dv : Nat) (dc : DCO) : Option DCRec := do
-  let r ← saveDC2 dv dc
+def saveDC3 (dvs : List Nat) (dc : DCO) : Option DCRec := do
+  let r ← saveDC2 dvs dc
   some { r with protocol := 3, sgCount := some dc.sgCount }
 
-def saveDC4 (dv : Nat) (dc : DCO) : Option DCRec := do
-  let ds ← dc.data.mapM (saveData dv)
-  some { protocol := 4, data := ds, links := dc.links.map LinkRec.same,
+def saveDC4 (dvs : List Nat) (dc : DCO) : Option DCRec := do
+  let ds ← saveDatas dvs dc.data
+  some { protocol := 4, data := ds, links := dc.links.map extRec,
          groups := some dc.groups, sgCount := some dc.sgCount }
 
-def saveDC (cv dv : Nat) (dc : DCO) : Option DCRec :=
+/-- the `DataCollection` saver of version `cv`, the datasets written with versions `dvs` -/
+def saveDC (cv : Nat) (dvs : List Nat) (dc : DCO) : Option DCRec :=
   match cv with
-  | 1 => saveDC1 dv dc
-  | 2 => saveDC2 dv dc
-  | 3 => saveDC3 dv dc
-  | 4 => saveDC4 dv dc
+  | 1 => saveDC1 dvs dc
+  | 2 => saveDC2 dvs dc
+  | 3 => saveDC3 dvs dc
+  | 4 => saveDC4 dvs dc
   | _ => none
 
 /-! ## DataCollection loaders -/
 
-def externalOf (ls : List LinkRec) : List Link :=
-  ls.filterMap fun | .same l => some l | .derived _ _ => none
+/-- `links = [context.object(l) …]` followed by the filter that drops `CoordinateComponentLink`s;
+a helper in a protocol ≤ 3 record has no `get_to_id` (AttributeError) -/
+def loadedLinks : List LinkRec → Option (List CLink)
+  | [] => some []
+  | .coord _ _ :: r => loadedLinks r
+  | .link l :: r => (loadedLinks r).map (l :: ·)
+  | .helper _ :: _ => none
 
-/-- protocol ≤ 3: a derived component survives iff its link is among the saved internal links -/
-def keepInternal (ls : List LinkRec) (i : Nat) (d : DataO) : DataO :=
-  { d with derived := d.derived.filter fun der => ls.contains (.derived i der.label) }
+/-- the `for cid in link.get_from_ids(): if cid.parent is not parent_to: external …` loop:
+a link is external as soon as **one** input lives in another dataset than its output -/
+def crossing (l : CLink) : Bool := l.frm.any fun c => c.ds != l.to.ds
 
-def keepFrom (ls : List LinkRec) : Nat → List DataO → List DataO
+/-- protocol ≤ 3: a derived component survives iff its link is among the internal links -/
+def keepInternal (internal : List CLink) (i : Nat) (d : DataO) : DataO :=
+  { d with derived := d.derived.filter fun der => internal.contains (der.link i) }
+
+def keepFrom (internal : List CLink) : Nat → List DataO → List DataO
   | _, [] => []
-  | i, d :: r => keepInternal ls i d :: keepFrom ls (i + 1) r
+  | i, d :: r => keepInternal internal i d :: keepFrom internal (i + 1) r
 
 /-- `coerce_subset_groups`: walking the datasets in order, every subset that is not yet a
 `GroupedSubset` is deleted and re-created as a group — which attaches a grouped subset to
@@ -296,42 +383,151 @@ def coerce (ds : List DataO) : List DataO × List (String × Style) :=
   let plain : List Sel := ds.flatMap (·.subsets)
   (ds.map fun d => { d with subsets := plain }, plain.map fun s => (s.label, s.style))
 
-def loadDC1 (r : DCRec) : Option DCO := do
-  let ds ← r.data.mapM loadData
-  let ds := keepFrom r.links 0 ds
+/-- `_load_data_collection` after the datasets have been obtained from the context -/
+def assembleDC1 (r : DCRec) (ds : List DataO) : Option DCO := do
+  let links ← loadedLinks r.links
+  let external := links.filter crossing
+  let internal := links.filter fun l => !crossing l
+  let ds := keepFrom internal 0 ds
   let (ds, groups) := coerce ds
   -- `new_subset_group` counts the groups it creates
-  some { data := ds, links := externalOf r.links, groups := groups, sgCount := groups.length }
+  some { data := ds, links := external.map Ext.plain, groups := groups, sgCount := groups.length }
 
 /-- in protocol ≥ 2 records every subset already is a grouped subset: `coerce` finds nothing -/
-def loadDCgrouped (r : DCRec) : Option DCO := do
-  let ds ← r.data.mapM loadData
-  let ds := keepFrom r.links 0 ds
-  some { data := ds, links := externalOf r.links, groups := [], sgCount := 0 }
+def assembleDCgrouped (r : DCRec) (ds : List DataO) : Option DCO := do
+  let links ← loadedLinks r.links
+  let external := links.filter crossing
+  let internal := links.filter fun l => !crossing l
+  let ds := keepFrom internal 0 ds
+  some { data := ds, links := external.map Ext.plain, groups := [], sgCount := 0 }
 
-def loadDC2 (r : DCRec) : Option DCO := do
-  let dc ← loadDCgrouped r
+def assembleDC2 (r : DCRec) (ds : List DataO) : Option DCO := do
+  let dc ← assembleDCgrouped r ds
   let g ← r.groups                       -- rec['groups']
   some { dc with groups := g }
 
-def loadDC3 (r : DCRec) : Option DCO := do
-  let dc ← loadDC2 r
+def assembleDC3 (r : DCRec) (ds : List DataO) : Option DCO := do
+  let dc ← assembleDC2 r ds
   let n ← r.sgCount                      -- rec['subset_group_count']
   some { dc with sgCount := n }
 
-def loadDC4 (r : DCRec) : Option DCO := do
-  let ds ← r.data.mapM loadData
+/-- `dc.set_links([context.object(l) …])`: whatever was written, unclassified.  No saver writes a
+coordinate link into a protocol-4 record (not modelled: `none`). -/
+def loadedExt : List LinkRec → Option (List Ext)
+  | [] => some []
+  | .coord _ _ :: _ => none
+  | .link l :: r => (loadedExt r).map (Ext.plain l :: ·)
+  | .helper e :: r => (loadedExt r).map (e :: ·)
+
+def assembleDC4 (r : DCRec) (ds : List DataO) : Option DCO := do
+  let links ← loadedExt r.links
   let g ← r.groups
   let n ← r.sgCount
-  some { data := ds, links := externalOf r.links, groups := g, sgCount := n }
+  some { data := ds, links := links, groups := g, sgCount := n }
 
-def loadDC (r : DCRec) : Option DCO :=
+/-- the `DataCollection` loader registered for `rec['_protocol']`, given the loaded datasets -/
+def assembleDC (r : DCRec) (ds : List DataO) : Option DCO :=
   match r.protocol with
-  | 1 => loadDC1 r
-  | 2 => loadDC2 r
-  | 3 => loadDC3 r
-  | 4 => loadDC4 r
+  | 1 => assembleDC1 r ds
+  | 2 => assembleDC2 r ds
+  | 3 => assembleDC3 r ds
+  | 4 => assembleDC4 r ds
   | _ => none
+
+/-- record-wise loading of one collection record: every dataset record by the loader of **its
+own** `_protocol` (`loadData`), the collection by the loader of its `_protocol` -/
+def loadDC (r : DCRec) : Option DCO := do
+  let ds ← r.data.mapM loadData
+  assembleDC r ds
+
+/-! ## the unserializer: one document, one `GlueUnSerializer`
+
+A document holds any number of collection records (`__main__` = the list of them), each with its
+dataset records; in the JSON text these are separate named records that refer to each other by
+name, here a dataset record is named by (collection index, position).  `context.object(name)`
+returns the memoised object if the name has been loaded already and otherwise dispatches on the
+record.  The caller may ask for any records, in any order, before asking for `__main__`. -/
+
+abbrev Doc := List DCRec
+
+/-- a `context.object(name)` call made by the caller before `__main__` is requested -/
+inductive Req where
+  | data (k i : Nat)
+  | coll (k : Nat)
+  deriving Repr, DecidableEq
+
+/-- `GlueUnSerializer._objs`: the only state of an unserializer that survives a request -/
+structure Ctx where
+  datas : List ((Nat × Nat) × DataO)
+  colls : List (Nat × DCO)
+
+def Ctx.empty : Ctx := ⟨[], []⟩
+
+/-- `context.object(name)` for the dataset record `dr` named `(k, i)`:
+`if obj_id in self._objs: return self._objs[obj_id]`, else `self._dispatch(rec)(rec, self)` —
+the loader is chosen from `_type` and `_protocol` of **this** record (`loadData`) — and the
+result is memoised under the name. -/
+def Ctx.objectData (c : Ctx) (k i : Nat) (dr : DataRec) : Option (Ctx × DataO) :=
+  match c.datas.lookup (k, i) with
+  | some d => some (c, d)
+  | none => match loadData dr with
+    | none => none
+    | some d => some ({ c with datas := ((k, i), d) :: c.datas }, d)
+
+/-- `list(map(context.object, rec['data']))` -/
+def Ctx.objectDatas (k : Nat) : Ctx → List (DataRec × Nat) → Option (Ctx × List DataO)
+  | c, [] => some (c, [])
+  | c, (dr, i) :: rest => match c.objectData k i dr with
+    | none => none
+    | some (c1, d) => match Ctx.objectDatas k c1 rest with
+      | none => none
+      | some (c2, ds) => some (c2, d :: ds)
+
+/-- `context.object(name)` for collection record `r` named `k` -/
+def Ctx.objectColl (c : Ctx) (k : Nat) (r : DCRec) : Option (Ctx × DCO) :=
+  match c.colls.lookup k with
+  | some x => some (c, x)
+  | none => match Ctx.objectDatas k c r.data.zipIdx with
+    | none => none
+    | some (c1, ds) => match assembleDC r ds with
+      | none => none
+      | some x => some ({ c1 with colls := (k, x) :: c1.colls }, x)
+
+def Ctx.objectColls : Ctx → List (DCRec × Nat) → Option (Ctx × List DCO)
+  | c, [] => some (c, [])
+  | c, (r, k) :: rest => match c.objectColl k r with
+    | none => none
+    | some (c1, x) => match Ctx.objectColls c1 rest with
+      | none => none
+      | some (c2, xs) => some (c2, x :: xs)
+
+/-- one caller request; an unknown name is `GlueSerializeError("Unrecognized object")` -/
+def Ctx.request (doc : Doc) (c : Ctx) : Req → Option Ctx
+  | .data k i => match doc[k]? with
+    | none => none
+    | some r => match r.data[i]? with
+      | none => none
+      | some dr => (c.objectData k i dr).map (·.1)
+  | .coll k => match doc[k]? with
+    | none => none
+    | some r => (c.objectColl k r).map (·.1)
+
+def Ctx.requests (doc : Doc) : Ctx → List Req → Option Ctx
+  | c, [] => some c
+  | c, q :: qs => match c.request doc q with
+    | none => none
+    | some c1 => Ctx.requests doc c1 qs
+
+/-- a fresh unserializer on `doc`: the caller's requests, then `object('__main__')` -/
+def Unser.run (doc : Doc) (reqs : List Req) : Option (List DCO) :=
+  match Ctx.requests doc Ctx.empty reqs with
+  | none => none
+  | some c => (Ctx.objectColls c doc.zipIdx).map (·.2)
+
+/-- the request names a record of the document -/
+def Req.valid (doc : Doc) : Req → Prop
+  | .data k i => ∃ r, doc[k]? = some r ∧ i < r.data.length
+  | .coll k => k < doc.length
 
 /-! ## Spec: what a record of version v carries -/
 
@@ -344,53 +540,145 @@ def projectData (v : Nat) (d : DataO) : DataO :=
     uuid := if 4 ≤ v then d.uuid else none,
     metaKV := if 5 ≤ v then d.metaKV else [] }
 
-/-- the part of a collection that a protocol-`cv` record (with protocol-`dv` datasets) carries.
-Protocol 1 pre-dates subset groups: the plain subsets of the datasets are upgraded to groups. -/
-def projectDC (cv dv : Nat) (dc : DCO) : DCO :=
-  let ds := dc.data.map (projectData dv)
+/-- every dataset projected to the protocol it is written with -/
+def projectDatas (dvs : List Nat) (ds : List DataO) : List DataO :=
+  (ds.zip dvs).map fun p => projectData p.2 p.1
+
+/-- the part of a collection that a protocol-`cv` record (dataset `i` written with protocol
+`dvs[i]`) carries.  Protocol 1 pre-dates subset groups: the plain subsets of the datasets are
+upgraded to groups.  Protocols ≤ 3 write `dc.links`, i.e. every helper expanded into its
+`ComponentLink`s; protocol 4 writes the helpers themselves. -/
+def projectDC (cv : Nat) (dvs : List Nat) (dc : DCO) : DCO :=
+  let ds := projectDatas dvs dc.data
+  let flat := (dc.links.flatMap Ext.flatten).map Ext.plain
   if cv = 1 then
     let (ds', groups) := coerce ds
-    { data := ds', links := dc.links, groups := groups, sgCount := groups.length }
+    { data := ds', links := flat, groups := groups, sgCount := groups.length }
   else
-    { data := ds, links := dc.links, groups := dc.groups,
+    { data := ds, links := if cv ≤ 3 then flat else dc.links, groups := dc.groups,
       sgCount := if 3 ≤ cv then dc.sgCount else 0 }
 
-/-- objects a (dv, cv) pair can represent: protocol 3 has one component per join side;
-protocol-1 collections have no groups (only plain subsets), later ones only grouped subsets
-(every dataset carries one subset per group, same order) -/
-def representable (cv dv : Nat) (dc : DCO) : Bool :=
-  (dv != 3 || dc.data.all fun d => d.joins.all fun j => j.own.length == 1 && j.theirs.length == 1) &&
-  (if cv = 1 then dc.groups.isEmpty else true)
+/-- objects a (dvs, cv) assignment can represent: one version per dataset; protocol 3 has one
+component per join side; protocol-1 collections have no groups (only plain subsets), later ones
+only grouped subsets; every link between datasets really is one (at least one input from another
+dataset than the output — protocols ≤ 3 re-classify the links on load) -/
+def representable (cv : Nat) (dvs : List Nat) (dc : DCO) : Bool :=
+  (dvs.length == dc.data.length) &&
+  ((dc.data.zip dvs).all fun p =>
+    p.2 != 3 || p.1.joins.all fun j => j.own.length == 1 && j.theirs.length == 1) &&
+  (if cv = 1 then dc.groups.isEmpty else true) &&
+  (if cv ≤ 3 then (dc.links.flatMap Ext.flatten).all crossing else true)
 
-/-! ## what the harness observes of an object (masks through links and key joins)
+/-- the only clause of `representable` whose failure is a (loud) refusal of the saver -/
+def saveRefused (dvs : List Nat) (dc : DCO) : Bool :=
+  !((dc.data.zip dvs).all fun p =>
+    p.2 != 3 || p.1.joins.all fun j => j.own.length == 1 && j.theirs.length == 1)
 
-These functions model glue's *evaluation* of selections, not the serializer; they are validated
-by the correspondence check only. -/
+/-! ## what the harness observes of an object (values through links, masks through links and
+key joins)
+
+These functions model glue's *evaluation* of links and selections (`LinkManager`,
+`discover_links`), not the serializer; they are validated by the correspondence check only. -/
 
 def findComp (d : DataO) (c : String) : Option Comp := d.comps.find? (·.label = c)
 
-/-- values of an arithmetic derived component, in the observation encoding -/
-def derVals (d : DataO) : Der → Option (Kind × List Int)
-  | .dbl _ src => do
-    let c ← findComp d src
-    match c.kind with
-    | .int => some (.int, c.vals.map (· * 2))
-    | .half => some (.half, c.vals.map (· * 2))
-    | .cat => none
-  | .sum _ a b => do
-    let ca ← findComp d a
-    let cb ← findComp d b
-    match ca.kind, cb.kind with
-    | .int, .int => some (.int, List.zipWith (· + ·) ca.vals cb.vals)
-    | .int, .half => some (.half, List.zipWith (fun x y => 2 * x + y) ca.vals cb.vals)
-    | .half, .int => some (.half, List.zipWith (fun x y => x + 2 * y) ca.vals cb.vals)
-    | .half, .half => some (.half, List.zipWith (· + ·) ca.vals cb.vals)
-    | _, _ => none
+/-- a column in the observation encoding -/
+abbrev Val := Kind × List Int
 
-/-- evaluate a state given the values of the components it mentions -/
+/-- numeric columns: (integer dtype?, values in units of ½) -/
+def numOf : Val → Option (Bool × List Int)
+  | (.int, vs) => some (true, vs.map (· * 2))
+  | (.half, vs) => some (false, vs)
+  | (.cat, _) => none
+
+def ofNum (isInt : Bool) (vs : List Int) : Val :=
+  if isInt then (.int, vs.map (· / 2)) else (.half, vs)
+
+/-- the link functions, on columns (numpy dtype promotion: integer iff all inputs are) -/
+def applyFn (f : Fn) (args : List Val) : Option Val :=
+  if f = "identity" ∨ f = "coord" then
+    match args with
+    | [v] => some v
+    | _ => none
+  else do
+    let ns ← args.mapM numOf
+    let isInt := ns.all (·.1)
+    let un (g : Int → Int) : Option Val := match ns with
+      | [(_, xs)] => some (ofNum isInt (xs.map g))
+      | _ => none
+    let bin (g : Int → Int → Int) : Option Val := match ns with
+      | [(_, xs), (_, ys)] => some (ofNum isInt (List.zipWith g xs ys))
+      | _ => none
+    if f = "twice" ∨ f = "binop_mul" then un (· * 2)
+    else if f = "plus3" then un (· + 6)
+    else if f = "minus3" then un (· - 6)
+    else if f = "neg" then un (- ·)
+    else if f = "add2" ∨ f = "binop_add" ∨ f = "forwards_1" ∨ f = "backwards_1" ∨
+        f = "pair_fw_1" ∨ f = "pair_bw_1" then bin (· + ·)
+    else if f = "sub2" ∨ f = "forwards_2" ∨ f = "backwards_2" ∨ f = "pair_fw_2" ∨
+        f = "pair_bw_2" then bin (· - ·)
+    else if f = "lin3" then match ns with
+      | [(_, xs), (_, ys), (_, zs)] =>
+        some (ofNum isInt (List.zipWith (· - ·) (List.zipWith (fun x y => x + 2 * y) xs ys) zs))
+      | _ => none
+    else none
+
+abbrev Env := List (CRef × Val)
+
+def Env.get (env : Env) (r : CRef) : Option Val := (env.find? (·.1 = r)).map (·.2)
+
+/-- number of rows of a dataset -/
+def nrows (d : DataO) : Nat := match d.comps with
+  | c :: _ => c.vals.length
+  | [] => 0
+
+/-- what dataset `k` holds itself: pixel coordinate, main components, world coordinate
+(`IdentityCoordinates`: equal to the pixel coordinate) -/
+def ownEnv (k : Nat) (d : DataO) : Env :=
+  let idx : List Int := (List.range (nrows d)).map Int.ofNat
+  [(⟨k, pixLabel⟩, (Kind.int, idx))] ++ d.comps.map (fun c => (⟨k, c.label⟩, (c.kind, c.vals))) ++
+  (if d.coords then [(⟨k, worldLabel⟩, (Kind.int, idx))] else [])
+
+/-- every link the link manager knows: `data.links` of every dataset, the external links with
+helpers expanded, and the inverse links -/
+def candidateLinks (dc : DCO) : List CLink :=
+  let internal : List CLink := dc.data.zipIdx.flatMap fun (d, i) =>
+    (if d.coords then [(⟨[⟨i, pixLabel⟩], ⟨i, worldLabel⟩, "coord", none⟩ : CLink),
+                       ⟨[⟨i, worldLabel⟩], ⟨i, pixLabel⟩, "coord", none⟩] else []) ++
+    d.derived.map (·.link i)
+  let ext := dc.links.flatMap Ext.flatten
+  let inv := ext.filterMap fun l => match l.inv, l.frm with
+    | some g, [a] => some (⟨[l.to], a, g, some l.fn⟩ : CLink)
+    | _, _ => none
+  internal ++ ext ++ inv
+
+/-- one round of `discover_links`: the first link all of whose inputs are known and whose
+output is not -/
+def stepEnv (cands : List CLink) (env : Env) : Option Env :=
+  cands.findSome? fun l =>
+    if (env.get l.to).isSome then none else do
+      let args ← l.frm.mapM env.get
+      let v ← applyFn l.fn args
+      some (env ++ [(l.to, v)])
+
+def closeEnv : Nat → List CLink → Env → Env
+  | 0, _, env => env
+  | f + 1, cands, env => match stepEnv cands env with
+    | some e => closeEnv f cands e
+    | none => env
+
+/-- everything dataset `k` can read, with values (generated collections give every component at
+most one producing link, so the order of discovery does not matter) -/
+def reach (dc : DCO) (k : Nat) : Env :=
+  match dc.data[k]? with
+  | none => []
+  | some d => let cands := candidateLinks dc
+    closeEnv (cands.length + 1) cands (ownEnv k d)
+
+/-- evaluate a state given the (doubled) values of the components it mentions -/
 def evalSt (vals : String → Option (List Int)) : St → Option (List Bool)
-  | .gt c t => (vals c).map fun xs => xs.map fun x => decide (x > t)
-  | .range c lo hi => (vals c).map fun xs => xs.map fun x => decide (lo ≤ x) && decide (x ≤ hi)
+  | .gt c t => (vals c).map fun xs => xs.map fun x => decide (x > 2 * t)
+  | .range c lo hi => (vals c).map fun xs => xs.map fun x => decide (2 * lo ≤ x) && decide (x ≤ 2 * hi)
   | .and a b => do
     let ma ← evalSt vals a
     let mb ← evalSt vals b
@@ -401,24 +689,12 @@ def evalSt (vals : String → Option (List Int)) : St → Option (List Bool)
     some (List.zipWith (· || ·) ma mb)
   | .not a => (evalSt vals a).map fun m => m.map (!·)
 
-/-- values, inside dataset `k`, of component `c` of dataset `owner`: its own component, or the
-component a `LinkSame` identifies it with -/
-def resolve (dc : DCO) (k owner : Nat) (c : String) : Option (List Int) := do
-  let dk ← dc.data[k]?
-  if k = owner then
-    (findComp dk c).map (·.vals)
-  else
-    let viaLink : Option String := dc.links.findSome? fun l =>
-      if l.i = owner ∧ l.a = c ∧ l.j = k then some l.b
-      else if l.j = owner ∧ l.b = c ∧ l.i = k then some l.a
-      else none
-    match viaLink with
-    | some b => (findComp dk b).map (·.vals)
-    | none => none
-
-/-- `state.to_mask(data[k])` without key joins -/
-def directMask (dc : DCO) (k : Nat) (s : Sel) : Option (List Bool) :=
-  evalSt (resolve dc k s.owner) s.state
+/-- `state.to_mask(data[k])` without key joins; `envs[k] = reach dc k` -/
+def directMask (envs : List Env) (k : Nat) (s : Sel) : Option (List Bool) :=
+  evalSt (fun c => do
+    let env ← envs[k]?
+    let v ← env.get ⟨s.owner, c⟩
+    (numOf v).map (·.2)) s.state
 
 /-- rows of the key columns -/
 def keyRows (d : DataO) (cs : List String) : Option (List (List Int)) := do
@@ -429,14 +705,14 @@ def keyRows (d : DataO) (cs : List String) : Option (List (List Int)) := do
 
 /-- `data[k].get_mask(state)`: directly, else through the first key join whose other side can
 evaluate the state directly -/
-def maskOn (dc : DCO) (k : Nat) (s : Sel) : Option (List Bool) :=
-  match directMask dc k s with
+def maskOn (dc : DCO) (envs : List Env) (k : Nat) (s : Sel) : Option (List Bool) :=
+  match directMask envs k s with
   | some m => some m
   | none => do
     let dk ← dc.data[k]?
     dk.joins.findSome? fun j => do
       let dother ← dc.data[j.other]?
-      let mr ← directMask dc j.other s
+      let mr ← directMask envs j.other s
       let left ← keyRows dk j.own
       let right ← keyRows dother j.theirs
       let sel := (right.zip mr).filterMap fun (row, b) => if b then some row else none
